@@ -247,27 +247,66 @@ def NonZeroInt.tryFrom (i : Int) : Option Int := if i = 0 then none else some i
 
 /-! ### `KeepRaw<'b, T>` -/
 
+/-- `Cow<'b, [u8]>`: borrowed from the decoder's input, or owned -/
+inductive Cow where
+  | borrowed (bs : Bytes)
+  | owned (bs : Bytes)
+  deriving Repr, DecidableEq
+
+def Cow.bytes : Cow → Bytes
+  | .borrowed bs => bs
+  | .owned bs => bs
+
 structure KeepRaw (α : Type) where
-  raw : Bytes
+  cow : Cow
   inner : α
   deriving Repr, DecidableEq
 
-/-- `impl From<T> for KeepRaw` -/
-def KeepRaw.from {α : Type} (a : α) : KeepRaw α := ⟨[], a⟩
-/-- `clear_raw` -/
-def KeepRaw.clearRaw {α : Type} (k : KeepRaw α) : KeepRaw α := { k with raw := [] }
-/-- `deref_mut` followed by the caller's mutation `f` of `&mut T` -/
+/-- `raw_cbor()`: `&self.raw` -/
+def KeepRaw.raw {α : Type} (k : KeepRaw α) : Bytes := k.cow.bytes
+
+/-- `impl From<T> for KeepRaw`: `raw: Cow::from(vec![])` (owned, empty) -/
+def KeepRaw.from {α : Type} (a : α) : KeepRaw α := ⟨.owned [], a⟩
+/-- `clear_raw`: `self.raw = Cow::from(vec![])` -/
+def KeepRaw.clearRaw {α : Type} (k : KeepRaw α) : KeepRaw α := { k with cow := .owned [] }
+/-- `to_owned`: `raw: Cow::Owned(self.raw.into_owned())` — same bytes, detached from the input -/
+def KeepRaw.toOwned {α : Type} (k : KeepRaw α) : KeepRaw α := { k with cow := .owned k.raw }
+/-- `#[derive(Clone)]`: a `Cow` clones to the same variant with the same bytes -/
+def KeepRaw.clone {α : Type} (k : KeepRaw α) : KeepRaw α := k
+/-- `unwrap` -/
+def KeepRaw.unwrap {α : Type} (k : KeepRaw α) : α := k.inner
+/-- `deref_mut` (always `clear_raw()` first) followed by the caller's mutation `f` of `&mut T` -/
 def KeepRaw.derefMut {α : Type} (k : KeepRaw α) (f : α → α) : KeepRaw α :=
   let k' := k.clearRaw
   { k' with inner := f k'.inner }
 
+/-- the public operations that take a `KeepRaw` to a `KeepRaw` -/
+inductive KOp (α : Type) where
+  | toOwned | clone | deref | clearRaw
+  | derefMut (f : α → α)
+
+def KOp.apply {α : Type} : KOp α → KeepRaw α → KeepRaw α
+  | .toOwned, k => k.toOwned
+  | .clone, k => k.clone
+  | .deref, k => k
+  | .clearRaw, k => k.clearRaw
+  | .derefMut f, k => k.derefMut f
+
+/-- does the operation invalidate the raw bytes -/
+def KOp.invalidates {α : Type} : KOp α → Bool
+  | .clearRaw | .derefMut _ => true
+  | _ => false
+
+/-- a history of operations, oldest first -/
+def KeepRaw.run {α : Type} (k : KeepRaw α) (ops : List (KOp α)) : KeepRaw α := ops.foldl (fun k o => o.apply k) k
+
 def KeepRaw.enc {α : Type} (t : Codec α) (k : KeepRaw α) : Bytes :=
   if k.raw.isEmpty then t.enc k.inner else k.raw
 
-/-- `raw = all[start..end]` -/
+/-- `raw = Cow::Borrowed(&all[start..end])` -/
 def KeepRaw.dec {α : Type} (t : Codec α) : P (KeepRaw α) := fun cur =>
   match t.dec cur with
-  | .ok a rest => .ok ⟨span cur rest, a⟩ rest
+  | .ok a rest => .ok ⟨.borrowed (span cur rest), a⟩ rest
   | .err e => .err e
 
 def cKeepRaw {α : Type} (t : Codec α) : Codec (KeepRaw α) := ⟨KeepRaw.enc t, KeepRaw.dec t⟩
